@@ -990,6 +990,43 @@ func (c *FnCtx) contractMods(fc *FuncContract, key string, ms *modSet) {
 // designatorStruct resolves the struct type of the base of a designator: a type name, or a
 // parameter/receiver path like a.b of the callee.
 func (c *FnCtx) designatorStruct(base string, fc *FuncContract, key string, pkgT *types.Package) *types.Named {
+	// strip index expressions: x.m[k].f -> the element type of m is what matters
+	idxCount := map[int]int{}
+	{
+		var sb strings.Builder
+		depth, seg := 0, 0
+		for _, ch := range base {
+			switch {
+			case ch == '[':
+				if depth == 0 {
+					idxCount[seg]++
+				}
+				depth++
+			case ch == ']':
+				depth--
+			case depth > 0:
+			case ch == '.':
+				seg++
+				sb.WriteRune(ch)
+			default:
+				sb.WriteRune(ch)
+			}
+		}
+		base = sb.String()
+	}
+	elemOf := func(t types.Type, n int) types.Type {
+		for ; n > 0 && t != nil; n-- {
+			switch u := t.Underlying().(type) {
+			case *types.Map:
+				t = u.Elem()
+			case *types.Slice:
+				t = u.Elem()
+			default:
+				return nil
+			}
+		}
+		return t
+	}
 	parts := strings.Split(base, ".")
 	var t types.Type
 	if pkgT != nil {
@@ -1020,7 +1057,8 @@ func (c *FnCtx) designatorStruct(base string, fc *FuncContract, key string, pkgT
 	if t == nil {
 		return nil
 	}
-	for _, p := range parts[1:] {
+	t = elemOf(t, idxCount[0])
+	for pi, p := range parts[1:] {
 		n, stt, _ := derefNamedStruct(t)
 		if n == nil {
 			return nil
@@ -1031,6 +1069,10 @@ func (c *FnCtx) designatorStruct(base string, fc *FuncContract, key string, pkgT
 				t = stt.Field(j).Type()
 			}
 		}
+		if t == nil {
+			return nil
+		}
+		t = elemOf(t, idxCount[pi+1])
 		if t == nil {
 			return nil
 		}
